@@ -31,8 +31,9 @@ RULES = {
     "R5": "scorer: ids zipped with the outputs are the ids that selected the inputs, in order; like-named predictors",
     "R6": "triples: choice(C, min(C, max_combos), replace=False), C = comb(n, 3, exact=True); unranked with (n, 3)",
     "R7": "rng threaded from wrappers/scorer to the kernel",
+    "R8": "the stacking helpers the scorer calls (predict_mean_all, predict_variance_all, ..) give one row per posterior sample in holder order from the like-named predictor",
 }
-MIN = {"R1": 1, "R2": 7, "R3": 2, "R4": 2, "R5": 3, "R6": 3, "R7": 3}
+MIN = {"R1": 1, "R2": 7, "R3": 2, "R4": 2, "R5": 3, "R6": 3, "R7": 3, "R8": 5}
 TRUSTED = ["distance matrix is symmetric (C07.R3)", "scipy logsumexp(axis=1) reduces the triple axis only", "numpy broadcasting"]
 TECHNIQUE = "polynomial normal form with permutation (S3) symmetry lint; def-use checks of the padding protocol; axis-role lint"
 LEVEL_TEXT = ("Invariance under relabelling of the posterior samples, independence from co-scored plates (axis isolation + "
@@ -621,7 +622,14 @@ def thorough(ctx):
               "the score is a different function of means, variances and distances")
 
 
-RULE_FUNCS = [r1, r2, r3, r4, r5, r6, r7]
+def r8(ctx):
+    """a plate's block of the kernel input is that plate's own predictions only if predict_mean_all / predict_variance_all stack one row per
+    posterior sample, in holder order, from the like-named predictor (C09.R6's clause run here)"""
+    from . import C09
+    ctx.borrow(C09.r6, "R8")
+
+
+RULE_FUNCS = [r1, r2, r3, r4, r5, r6, r7, r8]
 
 
 def run(ctx):
